@@ -30,6 +30,7 @@ for cfg in ("A", "B", "C", "D", "E"):
 with open(os.path.join(VERIF, "oracles", "known_fns.json"), "w") as fh:
     json.dump({"_comment": "function bodies of the pinned tree (after the fix: commits) and the Option/Result combinators each of them "
                            "(with its closures) already uses; see hv/inline.py", "functions": sorted(fns),
+               "combinator_table": sorted(inline.COMBINATORS),
                "combinators": {k: sorted(v) for k, v in sorted(combs.items())}}, fh, indent=0)
 try:
     os.remove(os.path.join(VERIF, "oracles", "known_fns.json.bak"))
